@@ -29,11 +29,19 @@ func normalizeCompileError(msg string) string {
 	msg = regexp.MustCompile(`^[^:]*:\d+:\d+: `).ReplaceAllString(msg, "")
 	msg = regexp.MustCompile(`\([^)]*\)`).ReplaceAllString(msg, "")
 	out := reIdentTok.ReplaceAllStringFunc(msg, func(w string) string {
+		// helpers of the CRUD code keep their role in the class: <T>ArrayToPQ, Scan<T>Array
+		if strings.HasSuffix(w, "ArrayToPQ") {
+			return "XArrayToPQ"
+		}
+		if strings.HasPrefix(w, "Scan") && strings.HasSuffix(w, "Array") {
+			return "ScanXArray"
+		}
 		if w == strings.ToLower(w) && !strings.HasPrefix(w, "rand") && !strings.HasPrefix(w, "pk") && !strings.ContainsAny(w, "0123456789_") && len(w) < 14 {
 			return w
 		}
 		return "X"
 	})
+	out = regexp.MustCompile(`\b[a-z_][a-z0-9_]*\.X`).ReplaceAllString(out, "P.X") // package qualifier
 	out = regexp.MustCompile(`\d+`).ReplaceAllString(out, "N")
 	out = regexp.MustCompile(`\s+`).ReplaceAllString(out, " ")
 	if len(out) > 80 {
